@@ -2,6 +2,7 @@
 cached by a hash of the sources), link the line-protocol drivers, build the Lean project."""
 import fcntl
 import hashlib
+import json
 import os
 import shutil
 import subprocess
@@ -100,9 +101,45 @@ def build_objects(need_cxx=False):
             dp = os.path.join(BUILD, d)
             if d.startswith("obj-") and d != "obj-" + key and time.time() - os.path.getmtime(dp) > 7200:
                 shutil.rmtree(dp, ignore_errors=True)
+        fresh = not os.path.isdir(objdir)
         os.makedirs(objdir, exist_ok=True)
         os.utime(objdir)
         t0 = time.time()
+        # per-file reuse: an object compiled for another tree state is taken over (hard link) when the source file,
+        # every header of the tree and the flags are byte-identical; the key of each object is recorded in srchash.json
+        hh = hashlib.sha256(" ".join(CFLAGS).encode())
+        for p in hdr:
+            hh.update(os.path.relpath(p, REPO).encode())
+            with open(p, "rb") as f:
+                hh.update(hashlib.sha256(f.read()).digest())
+        hdr_key = hh.hexdigest()
+
+        def src_key(src):
+            with open(src, "rb") as f:
+                return hashlib.sha256(hdr_key.encode() + os.path.relpath(src, REPO).encode() + f.read()).hexdigest()
+        keys = {os.path.relpath(src, REPO): src_key(src) for src in c + (cxx if need_cxx else [])}
+        reused = 0
+        if fresh and not os.environ.get("VERIF_COVER"):   # coverage objects carry their .gcda path: never shared
+            donors = []
+            for d in os.listdir(BUILD):
+                jp = os.path.join(BUILD, d, "srchash.json")
+                if d.startswith("obj-") and d != "obj-" + key and os.path.exists(jp):
+                    try:
+                        with open(jp) as f:
+                            donors.append((os.path.getmtime(jp), os.path.join(BUILD, d), json.load(f)))
+                    except (OSError, ValueError):
+                        pass
+            donors.sort(reverse=True)
+            for rel, k in keys.items():
+                oname = rel.replace("/", "__") + ".o"
+                for _mt, ddir, dk in donors:
+                    if dk.get(rel) == k and os.path.exists(os.path.join(ddir, oname)):
+                        try:
+                            os.link(os.path.join(ddir, oname), os.path.join(objdir, oname))
+                        except OSError:
+                            shutil.copy2(os.path.join(ddir, oname), os.path.join(objdir, oname))
+                        reused += 1
+                        break
         jobs = []
         for src in c:
             obj = os.path.join(objdir, os.path.relpath(src, REPO).replace("/", "__") + ".o")
@@ -115,21 +152,30 @@ def build_objects(need_cxx=False):
                     jobs.append(["g++", "-std=gnu++11"] + CFLAGS + INCS + ["-I" + os.path.dirname(src), "-c", src, "-o", obj])
         if jobs:
             _compile_many(jobs)
+        try:
+            with open(os.path.join(objdir, "srchash.json")) as f:
+                known = json.load(f)
+        except (OSError, ValueError):
+            known = {}
+        if jobs or reused or not known:
+            known.update(keys)
+            with open(os.path.join(objdir, "srchash.json"), "w") as f:
+                json.dump(known, f)
         # archives
         libc_a = os.path.join(objdir, "libmptc.a")
         objs_c = sorted(os.path.join(objdir, f) for f in os.listdir(objdir) if f.endswith(".c.o"))
-        if jobs or not os.path.exists(libc_a):
+        if jobs or reused or not os.path.exists(libc_a):
             if os.path.exists(libc_a):
                 os.unlink(libc_a)
             subprocess.check_call(["ar", "rcs", libc_a] + objs_c)
         if need_cxx:
             libxx_a = os.path.join(objdir, "libmptxx.a")
             objs_x = sorted(os.path.join(objdir, f) for f in os.listdir(objdir) if f.endswith(".cpp.o"))
-            if jobs or not os.path.exists(libxx_a):
+            if jobs or reused or not os.path.exists(libxx_a):
                 if os.path.exists(libxx_a):
                     os.unlink(libxx_a)
                 subprocess.check_call(["ar", "rcs", libxx_a] + objs_x)
-        return objdir, {"tree_hash": key, "compiled": len(jobs), "compile_s": round(time.time() - t0, 2)}
+        return objdir, {"tree_hash": key, "compiled": len(jobs), "reused": reused, "compile_s": round(time.time() - t0, 2)}
     finally:
         lock.close()
 
